@@ -265,6 +265,10 @@ class Delete(AbstractCommand):
                     element.eSet(reference, content)
         for element, v in self.inverse_references.items():
             for i, obj, reference in v:
+                if obj in self.references:
+                    # a referrer that was deleted too: its own references
+                    # have just been restored above
+                    continue
                 if reference.many:
                     obj.eGet(reference).insert(i, element)
                 else:
